@@ -1170,9 +1170,10 @@ func nilNilRule(p *Program, r *Report, rule string, files []string) int {
 			}
 		}
 		res := fn.Signature.Results()
-		if !inFile || res.Len() != 2 || !types.Identical(res.At(1).Type(), errT) || !pointerLike(res.At(0).Type()) {
+		if !inFile || res.Len() != 2 || !types.Identical(res.At(1).Type(), errT) {
 			continue
 		}
+		ptrLike := pointerLike(res.At(0).Type())
 		_, isSl := res.At(0).Type().Underlying().(*types.Slice)
 		for _, ret := range returnsOf(fn) {
 			if !isNilConst(ret.Results[1]) {
@@ -1188,11 +1189,15 @@ func nilNilRule(p *Program, r *Report, rule string, files []string) int {
 				}
 				if knownNil {
 					n++
-					r.Add(rule, FnName(fn), "an error that is known to be nil is not returned with a nil value", ret.Pos(), !isNilConst(ret.Results[0]), "the error test is inverted: success returns nothing and the failure falls through")
+					zero := false
+					if k, isK := ret.Results[0].(*ssa.Const); isK && k.Value == nil {
+						zero = true // nil, or the zero value of an array / struct type (chainhash.Hash{})
+					}
+					r.Add(rule, FnName(fn), "an error that is known to be nil is not returned with a zero value", ret.Pos(), !zero, "the error test is inverted: success returns nothing and the failure falls through")
 				}
 				continue
 			}
-			if isSl {
+			if isSl || !ptrLike {
 				continue // an empty result is a legitimate nil slice
 			}
 			n++
